@@ -48,8 +48,9 @@ LEVEL_NOTE = ("trusted: numpy, the transcription of each documented problem in x
               "difference formulas; assumed: defects confined to parameter values, points or times between lattice values are not seen; "
               "residuals below the class-D tolerances are not seen")
 BOUND = {"quick": "K=1 deviations from the default vector per solver; Rod1D x all boundary-coefficient tuples over {0,1,-1,2}^4 (225 tuples); "
-                  "CylindricalSandwich at Nsum x Msum = 5 x 10",
-         "thorough": "K=2 deviations; Rod1D x all tuples over {0,1,-1,0.5,2}^4 (576 tuples); CylindricalSandwich at 10 x 40 plus one call set at the default 20 x 100"}
+                  "CylindricalSandwich K=1 at Nsum x Msum = 5 x 10",
+         "thorough": "K=2 deviations; Rod1D x all tuples over {0,1,-1,0.5,2}^4 (576 tuples; K=2 on the 225 tuples over {0,1,-1,2}, K=1 on the 351 containing 0.5); "
+                     "CylindricalSandwich K=1 at 10 x 40 plus one call set at the default 20 x 100"}
 RULE = ("tasks = (solver, [boundary-coefficient tuple,] deviation vector), complete for the bound; per task: 4 times x (interior PDE residual on "
         "9/25 points, every face operator, r=0 limit) + the t->0+ sequence + the t->infinity call; an evaluation is one public solver call; "
         "a case (solver, vector, clause, time, point) is non-trivial when the balance it tests is not 0=0: for the PDE clause the terms exceed "
@@ -57,7 +58,7 @@ RULE = ("tasks = (solver, [boundary-coefficient tuple,] deviation vector), compl
 ASSUMPTIONS = [
     "values outside the parameter/time/point alphabets are not explored",
     "the documented problem of each solver is the one transcribed from its docstring: Rod1D family alpha_i T + beta_i dT/dx = gamma_i with d/dx along +x at both ends, linear initial profile TL..TR; "
-    "Rectangle with zero-flux sides; Hutchens1 sphere; Hutchens2 with the cylindrical Laplacian (the displayed r^2 is read as the misprint it is: the text says cylindrical and the solution uses I0); "
+    "Rectangle with the side condition the module docstring declares (read at run time; on the pinned tree: zero heat flux); Hutchens1 sphere; Hutchens2 with the cylindrical Laplacian (the displayed r^2 is read as the misprint it is: the text says cylindrical and the solution uses I0); "
     "CylindricalSandwich with the declared boundary temperatures T0, T1 (static solution T0 + (T1-T0) 2 theta/pi; the docstring's T0 + 2 theta T1/pi is the same at the default T0 = 0)",
     "for Robin coefficient signs that pump heat in (alpha1*beta1 > 0 or alpha2*beta2 < 0) the documented real-mode series cannot represent the solution; "
     "only the PDE and boundary clauses are evaluated there (counted as skipped_initial_steady_nondissipative)",
@@ -95,19 +96,22 @@ ORDER = ["Rectangle", "CylindricalSandwich", "PlanarSandwich", "PlanarSandwichHo
 # ---- ones (initial profile, Gibbs-affected faces) additionally go through the falls-with-Nsum rule.
 # ---- Measured worst residual of the clauses the pinned tree satisfies (thorough lattice) is noted; tolerance >= 10x that.
 TOL = {
-    "pde": 1e-3,        # measured worst 2.9e-5 rod family (t = 1e-3 tscale, boundary layer), 9.7e-5 Rectangle, 7.5e-6 Hutchens1, 1.6e-9 Hutchens2
-    "bc": 1e-6,         # measured worst 2.3e-9 (one-sided flux differences); temperature faces 1e-15
-    "sym": 1e-6,        # measured worst 8.6e-9 (Hutchens2), 8.9e-11 (Hutchens1)
-    "axis": 1e-8,       # measured worst 5.1e-13
-    "initial": 1e-4,    # measured worst 1.2e-6 (Nsum = 100 at t = 1e-4 tscale)
-    "rise": 1e-4,       # measured worst 0 on the branches that work
+    "pde": 1e-3,        # measured worst (thorough): 5.2e-5 rod family (t = 1e-3 tscale, boundary layer), 9.7e-5 Rectangle, 1.0e-5 Hutchens1, 8.9e-9 Hutchens2
+    "bc": 1e-5,         # measured worst: 2.3e-9 flux faces of BC2-BC4 (one-sided differences), 1.9e-7 Robin faces (case II and the patched case I); temperature faces 2e-15
+    "sym": 1e-6,        # measured worst 3.1e-8 (Hutchens2, Nsum = 400), 8.9e-11 (Hutchens1)
+    "axis": 1e-8,       # measured worst 1.1e-10 (spread between r = 1e-6 and 1e-9), 1e-13 (value)
+    "initial": 1e-4,    # measured worst 1.24e-6 (Nsum = 100 at t = 1e-4 tscale)
+    "rise": 1e-4,       # measured worst 0 on BC1-BC4, Hutchens1; 0 on the patched Robin branch
     "steady": 1e-9,     # measured worst 2.8e-14
 }
 TOL_FAMILY = {
-    # documented accuracy of the coefficients 1e-3 ("NOTE" in the docstring); mode-wise radial flux faces measured 4.3e-8 (newton tolerance)
-    "CylindricalSandwich": {"pde": 1e-2, "bc": 1e-5, "initial": 1e-2, "rise": 1e-2, "steady": 1e-9},
-    # double series, Nsum = 100: measured worst initial 5.4e-4, rise 3.5e-4 (truncation)
-    "Rectangle": {"initial": 1e-2, "rise": 1e-2},
+    # mode-wise radial flux faces: measured 1.6e-7 (pinned), 3.8e-6 (patched solver; newton tolerance of the mode numbers);
+    # documented accuracy of the coefficients 1e-3 ("NOTE" in the docstring); low-order moments of the patched solver at
+    # t = 1e-4 tscale: 5.3e-4 (physical decay, independent of the truncation); pde of the patched solver 3.6e-7
+    "CylindricalSandwich": {"pde": 1e-2, "bc": 1e-4, "initial": 1e-2, "rise": 1e-2, "steady": 1e-9},
+    # double series, Nsum = 100: measured worst initial/rise 2.3e-3 (a = 0.7, b = 1.5; 5.9e-3 at a = 0.7 with the overflow repaired):
+    # truncation in y at t = 1e-4 tscale; a wrong coefficient gives 1.2 (mutant rectangle_coefficient_a_for_b)
+    "Rectangle": {"initial": 6e-2, "rise": 6e-2},
 }
 FALL = 0.6
 
@@ -140,8 +144,11 @@ def tasks(tier, seed):
     for fam in ORDER:
         devs = lattice.enumerate_checked(ALPHABET[fam], k)
         if fam == "Rod1D":
+            core = set(COEF["quick"])
+            devs1 = lattice.enumerate_checked(ALPHABET[fam], 1)
             for c in bc_tuples(tier):
-                for dev in devs:
+                # thorough: K = 2 on every tuple over the quick coefficient alphabet, K = 1 on the tuples that contain 0.5
+                for dev in (devs if all(v in core for v in c) else devs1):
                     out.append({"family": fam, "bc": c, "dev": dev})
         elif fam == "CylindricalSandwich":
             if tier == "thorough":
@@ -272,6 +279,43 @@ def run_task(task):
         res["violations"].append({"solver": fam, "cfg": vcfg, "clause": clause, "where": where, "value": float(value),
                                   "tol": tolv, "detail": detail})
 
+    def truncation_artefact(spec, pick, val, tv, detail, alt):
+        """Series truncation or defect?  The residual `val` (> tv) of this clause must fall when the number of terms grows:
+        re-evaluated with 4x (if not evaluable: 2x) the terms it must be within tolerance or <= FALL * val; if no longer
+        series is evaluable (overflow/NaN/exception) it must be <= FALL * (the residual with half the terms).
+        Never for the PDE clause: every term of a truncated eigenfunction expansion solves the PDE, so an interior residual
+        does not depend on the number of terms."""
+        kind, k, tf = spec
+        if not prob.nsum or kind == "pde":
+            return False
+
+        def value_at(factor):
+            if (factor, kind, k, alt) in dead:     # overflow of a longer series does not depend on the time
+                return None
+            o = other(factor)
+            rr = None
+            if o is not None:
+                try:
+                    rr = evaluate(o, spec, alt=alt)
+                except Exception:
+                    rr = None
+            if rr is None or not rr["finite"]:
+                dead.add((factor, kind, k, alt))
+                return None
+            return float(rr[pick])
+
+        for factor in (4, 2):
+            v2 = value_at(factor)
+            if v2 is not None:
+                detail["value_with_%dx_terms" % factor] = v2
+                return v2 <= tv or v2 <= FALL * val
+        bump("truncation_check_fallback_half")
+        v0 = value_at(0.5)
+        if v0 is not None:
+            detail["value_with_half_the_terms"] = v0
+            return val <= FALL * v0
+        return False
+
     for spec in specs(prob, reduced=bool(task.get("reduced_lattice"))):
         kind, k, tf = spec
         clause, tkind = clause_of(prob, spec)
@@ -310,55 +354,20 @@ def run_task(task):
                 continue
             detail = dict(r.get("detail", {}))
             extra = {}
-            # --- series truncation or defect?  the residual must fall when the number of terms grows
-            # (not for the PDE clause: every term of a truncated eigenfunction expansion solves the PDE, so an interior
-            #  residual does not depend on the number of terms and is never excused as truncation)
-            if prob.nsum and kind != "pde":
-                pick = {"initial:rise": "rise", "axis:limit-exists": "spread"}.get(cl, "value")
-
-                def value_at(factor):
-                    if (factor, kind, k) in dead:     # overflow of a longer series does not depend on the time
-                        return None
-                    o = other(factor)
-                    rr = None
-                    if o is not None:
-                        try:
-                            rr = evaluate(o, spec)
-                        except Exception:
-                            rr = None
-                    if rr is None or not rr["finite"]:
-                        dead.add((factor, kind, k))
-                        return None
-                    return float(rr[pick])
-
-                fell = None
-                for factor in (4, 2):
-                    v2 = value_at(factor)
-                    if v2 is not None:
-                        detail["value_with_%dx_terms" % factor] = v2
-                        fell = v2 <= tv or v2 <= FALL * val
-                        break
-                if fell is None:
-                    # a longer series is not evaluable (overflow/NaN/exception): compare with half the terms instead
-                    bump("truncation_check_fallback_half")
-                    v0 = value_at(0.5)
-                    if v0 is not None:
-                        detail["value_with_half_the_terms"] = v0
-                        fell = val <= FALL * v0
-                if fell:
-                    bump("truncation_limited")
-                    bump("truncation_limited:%s:%s" % (fam, cl))
-                    continue
-            # --- reduced oracle: does the alternative (as-coded) reading of this clause hold?
+            pick = {"initial:rise": "rise", "axis:limit-exists": "spread"}.get(cl, "value")
+            if truncation_artefact(spec, pick, val, tv, detail, alt=False):
+                bump("truncation_limited")
+                bump("truncation_limited:%s:%s" % (fam, cl))
+                continue
+            # --- reduced oracle: does the alternative (as-coded) reading of this clause hold (up to truncation)?
             face = prob.faces[k] if kind == "bc" else None
-            if face is not None and "alt" in face:
+            tag = face["alt"]["tag"] if face is not None and "alt" in face else (
+                prob.steady_alt[1] if kind == "steady" and hasattr(prob, "steady_alt") else None)
+            if tag is not None:
                 ra = evaluate(prob, spec, alt=True)
-                extra[face["alt"]["tag"]] = int(bool(ra["finite"] and ra["value"] <= tv))
-                detail["value_under_" + face["alt"]["tag"]] = ra.get("value")
-            if kind == "steady" and hasattr(prob, "steady_alt"):
-                ra = evaluate(prob, spec, alt=True)
-                extra[prob.steady_alt[1]] = int(bool(ra["finite"] and ra["value"] <= tv))
-                detail["value_under_" + prob.steady_alt[1]] = ra.get("value")
+                ok = bool(ra["finite"]) and (ra["value"] <= tv or truncation_artefact(spec, "value", ra["value"], tv, {}, alt=True))
+                extra[tag] = int(ok)
+                detail["value_under_" + tag] = ra.get("value")
             report(cl, tk, tf, val, tv, detail, extra)
     for p in [prob] + [o for o in others.values() if o is not None]:
         res["evals"] += p.evals
